@@ -334,8 +334,7 @@ func childC09(args []string) {
 		json.Unmarshal([]byte(a), &s)
 		specs = append(specs, s)
 	}
-	dir, _ := os.MkdirTemp("/var/tmp", "c09-")
-	defer os.RemoveAll(dir)
+	dir := scratch()
 	c09BuildModels()
 	// preceding render history (other models / renderers first)
 	for k := 0; k < history; k++ {
